@@ -235,7 +235,7 @@ func (g *Engine) checkProperty(prop string, hs []*Harness, tier string, seed int
 			} else {
 				hs.Notes[k] = n
 			}
-			if strings.HasPrefix(k, "unknown:") || strings.HasPrefix(k, "bound-exceeded:") {
+			if strings.HasPrefix(k, "unknown:") || strings.HasPrefix(k, "bound-exceeded:") || strings.HasPrefix(k, "unconfirmed:") {
 				inconclusive = append(inconclusive, fmt.Sprintf("%s: %s x%d", h.Name, k, n))
 			}
 		}
